@@ -367,6 +367,8 @@ class RegexParser:
                     ranges.append((start, start))
                     ranges.append(("-", "-"))
                 else:
+                    if len(start) == 1 and len(end) == 1 and start > end:
+                        raise RegExpError("Range out of order in character class")
                     ranges.append((start, end))
             else:
                 ranges.append((start, start))
